@@ -2,46 +2,6 @@ import AnySyncModel.Ldiff.Spec
 /-! Helper lemmas for C07 / C08 (core Lean only). -/
 namespace AnySync.Ldiff
 
-theorem filterMap_congr' {α β} {f g : α → Option β} {l : List α} (h : ∀ a ∈ l, f a = g a) :
-    l.filterMap f = l.filterMap g := by
-  induction l with
-  | nil => rfl
-  | cons x xs ih =>
-    have hx := h x (by simp)
-    have ih' := ih (fun a ha => h a (by simp [ha]))
-    simp [List.filterMap_cons, hx, ih']
-
-/-! ### children as list / as function -/
-
-theorem ofList_map_range {D} (df : Nat) (f : Nat → Tree D) (i : Nat) :
-    ofList ((List.range df).map f) i = if i < df then f i else .leaf 0 none := by
-  unfold ofList
-  rw [List.getD_eq_getElem?_getD, List.getElem?_map]
-  by_cases h : i < df
-  · rw [List.getElem?_range h]; simp [h]
-  · have : (List.range df)[i]? = none := List.getElem?_eq_none (by simp; omega)
-    rw [this]; simp [h]
-
-theorem kidsHash_ofList {D} (A : DigAlg D) (df : Nat) (f : Nat → Tree D) :
-    kidsHash A df (ofList ((List.range df).map f)) = listHash A ((List.range df).map f) := by
-  unfold kidsHash listHash
-  congr 2
-  rw [List.filterMap_map]
-  apply filterMap_congr'
-  intro i hi
-  have : i < df := by simpa using hi
-  simp [ofList_map_range, this]
-
-/-- `kidsHash` only looks at the first `df` children -/
-theorem kidsHash_congr {D} (A : DigAlg D) (df : Nat) (k k' : Nat → Tree D)
-    (h : ∀ i, i < df → k i = k' i) : kidsHash A df k = kidsHash A df k' := by
-  unfold kidsHash
-  congr 2
-  apply filterMap_congr'
-  intro i hi
-  have : i < df := by simpa using hi
-  simp [h i this]
-
 /-! ### the skip list -/
 
 def inR (lo hi : Nat) (e : Elem) : Bool := decide (lo ≤ e.hash) && decide (e.hash ≤ hi)
@@ -83,57 +43,551 @@ theorem slRange_insert_len (e : Elem) (sl : List Elem) (lo hi : Nat)
 /-! ### well-split ranges and the width hypothesis -/
 
 /-- what the division of `[lo,hi]` into `df` parts must satisfy: the parts lie inside the range,
-and `getBottomRange` returns the one part that contains the hash. Proved for every range that is
-not narrower than `df` (`splitOk_of_wide`). -/
-structure SplitOk (df lo hi : Nat) : Prop where
-  sub : ∀ i, i < df → lo ≤ (childRange lo hi df i).1 ∧ (childRange lo hi df i).2 ≤ hi
-  bucket : ∀ h, lo ≤ h → h ≤ hi → ∃ i, bucketOf lo hi df h = some i ∧ i < df ∧
-      ((childRange lo hi df i).1 ≤ h ∧ h ≤ (childRange lo hi df i).2) ∧
-      ∀ j, j < df → j ≠ i → ¬ ((childRange lo hi df j).1 ≤ h ∧ h ≤ (childRange lo hi df j).2)
+and `bucket` returns the one part that contains the hash. Proved for the Go arithmetic and every
+range that is not narrower than `df` in `Ldiff/Arith.lean` (`goSplit_ok`). -/
+structure SplitOk (S : Splitter) (df lo hi : Nat) : Prop where
+  sub : ∀ i, i < df → lo ≤ (S.child lo hi df i).1 ∧ (S.child lo hi df i).2 ≤ hi
+  bucket : ∀ h, lo ≤ h → h ≤ hi → ∃ i, S.bucket lo hi df h = some i ∧ i < df ∧
+      ((S.child lo hi df i).1 ≤ h ∧ h ≤ (S.child lo hi df i).2) ∧
+      ∀ j, j < df → j ≠ i → ¬ ((S.child lo hi df j).1 ≤ h ∧ h ≤ (S.child lo hi df j).2)
+  /-- the parts are non-empty -/
+  ne : ∀ i, i < df → (S.child lo hi df i).1 ≤ (S.child lo hi df i).2
+  /-- the ranges the diff subdivides into (`genTupleRanges`) are these parts -/
+  gen : genTupleRanges lo hi df = (List.range df).map (S.child lo hi df)
 
 /-- the hypothesis of termination (F-ldiff-width): every range that has to be divided (more than
 `thr` elements) splits properly, down to the depth budget. -/
-def WidthOk (p : Params) (sl : List Elem) : Nat → Nat → Nat → Prop
+def WidthOk (S : Splitter) (p : Params) (sl : List Elem) : Nat → Nat → Nat → Prop
   | 0, lo, hi => (slRange sl lo hi).length ≤ p.thr
   | f + 1, lo, hi => (slRange sl lo hi).length ≤ p.thr ∨
-      (SplitOk p.df lo hi ∧
-        ∀ i, i < p.df → WidthOk p sl f (childRange lo hi p.df i).1 (childRange lo hi p.df i).2)
+      (SplitOk S p.df lo hi ∧
+        ∀ i, i < p.df → WidthOk S p sl f (S.child lo hi p.df i).1 (S.child lo hi p.df i).2)
 
 /-- `sl'` differs from `sl` only at hash `x` -/
 def OnlyAt (x : Nat) (sl sl' : List Elem) : Prop :=
   ∀ a b, ¬ (a ≤ x ∧ x ≤ b) → slRange sl' a b = slRange sl a b
 
-theorem build_out {D} (A : DigAlg D) (p : Params) (sl sl' : List Elem) (x : Nat)
+/-- the width hypothesis is inherited by smaller contents -/
+theorem widthOk_mono (S : Splitter) (p : Params) (sl sl' : List Elem)
+    (hle : ∀ a b, (slRange sl' a b).length ≤ (slRange sl a b).length) :
+    ∀ fuel lo hi, WidthOk S p sl fuel lo hi → WidthOk S p sl' fuel lo hi := by
+  intro fuel
+  induction fuel with
+  | zero => intro lo hi hw; simp only [WidthOk] at hw ⊢; have := hle lo hi; omega
+  | succ f ih =>
+    intro lo hi hw
+    simp only [WidthOk] at hw ⊢
+    rcases hw with hw | hw
+    · left; have := hle lo hi; omega
+    · right; exact ⟨hw.1, fun i hi' => ih _ _ (hw.2 i hi')⟩
+
+/-! ### unfolding lemmas, stated once (all by `rfl`) -/
+section eqs
+variable {D : Type} (A : DigAlg D) (S : Splitter) (p : Params) (sl : List Elem)
+
+theorem build_zero (lo hi : Nat) :
+    build A S p sl 0 lo hi = if (slRange sl lo hi).length > p.thr then .stuck else mkLeaf A sl lo hi := rfl
+
+theorem build_succ (f lo hi : Nat) :
+    build A S p sl (f + 1) lo hi =
+      if (slRange sl lo hi).length > p.thr then
+        .div (slRange sl lo hi).length (kidsHash A (buildKids A S p sl f lo hi)) (buildKids A S p sl f lo hi)
+      else mkLeaf A sl lo hi := rfl
+
+theorem addEl_zero_leaf (h c lo hi : Nat) (d : Option D) :
+    addEl A S p sl h 0 (.leaf c d) lo hi = if c + 1 > p.thr then .stuck else mkLeaf A sl lo hi := rfl
+
+theorem addEl_succ_leaf (h f c lo hi : Nat) (d : Option D) :
+    addEl A S p sl h (f + 1) (.leaf c d) lo hi =
+      if c + 1 > p.thr then
+        .div (c + 1) (kidsHash A (buildKids A S p sl f lo hi)) (buildKids A S p sl f lo hi)
+      else mkLeaf A sl lo hi := rfl
+
+theorem addEl_succ_div (h f c lo hi : Nat) (d : Option D) (kids : List (Tree D)) :
+    addEl A S p sl h (f + 1) (.div c d kids) lo hi =
+      match S.bucket lo hi p.df h with
+      | none => .stuck
+      | some i =>
+        .div (c + 1)
+          (kidsHash A (kids.set i
+            (addEl A S p sl h f (kid kids i) (S.child lo hi p.df i).1 (S.child lo hi p.df i).2)))
+          (kids.set i
+            (addEl A S p sl h f (kid kids i) (S.child lo hi p.df i).1 (S.child lo hi p.df i).2)) := rfl
+
+theorem updEl_zero_leaf (h c lo hi : Nat) (d : Option D) :
+    updEl A S p sl h 0 (.leaf c d) lo hi = mkLeaf A sl lo hi := rfl
+
+theorem updEl_succ_leaf (h f c lo hi : Nat) (d : Option D) :
+    updEl A S p sl h (f + 1) (.leaf c d) lo hi = mkLeaf A sl lo hi := rfl
+
+theorem updEl_succ_div (h f c lo hi : Nat) (d : Option D) (kids : List (Tree D)) :
+    updEl A S p sl h (f + 1) (.div c d kids) lo hi =
+      match S.bucket lo hi p.df h with
+      | none => .stuck
+      | some i =>
+        .div c
+          (kidsHash A (kids.set i
+            (updEl A S p sl h f (kid kids i) (S.child lo hi p.df i).1 (S.child lo hi p.df i).2)))
+          (kids.set i
+            (updEl A S p sl h f (kid kids i) (S.child lo hi p.df i).1 (S.child lo hi p.df i).2)) := rfl
+
+theorem rmEl_zero_leaf (h c lo hi : Nat) (d : Option D) :
+    rmEl A S p sl h 0 (.leaf c d) lo hi = (mkLeaf A sl lo hi, true) := rfl
+
+theorem rmEl_succ_leaf (h f c lo hi : Nat) (d : Option D) :
+    rmEl A S p sl h (f + 1) (.leaf c d) lo hi = (mkLeaf A sl lo hi, true) := rfl
+
+theorem rmEl_succ_div (h f c lo hi : Nat) (d : Option D) (kids : List (Tree D)) :
+    rmEl A S p sl h (f + 1) (.div c d kids) lo hi =
+      match S.bucket lo hi p.df h with
+      | none => (.stuck, false)
+      | some i =>
+        if (rmEl A S p sl h f (kid kids i) (S.child lo hi p.df i).1 (S.child lo hi p.df i).2).2
+            && decide (c - 1 ≤ p.thr) then
+          (mkLeaf A sl lo hi, true)
+        else
+          (.div (c - 1)
+            (kidsHash A (kids.set i
+              (rmEl A S p sl h f (kid kids i) (S.child lo hi p.df i).1 (S.child lo hi p.df i).2).1))
+            (kids.set i
+              (rmEl A S p sl h f (kid kids i) (S.child lo hi p.df i).1 (S.child lo hi p.df i).2).1),
+           false) := rfl
+
+theorem topOp_div (h : Nat) (dc : Nat → Nat) (f : Tree D → Nat → Nat → Tree D) (c : Nat)
+    (d : Option D) (kids : List (Tree D)) :
+    topOp A S p h dc f (.div c d kids) =
+      match S.bucket 0 (M - 1) p.df h with
+      | none => .stuck
+      | some i =>
+        .div (dc c)
+          (kidsHash A (kids.set i
+            (f (kid kids i) (S.child 0 (M - 1) p.df i).1 (S.child 0 (M - 1) p.df i).2)))
+          (kids.set i
+            (f (kid kids i) (S.child 0 (M - 1) p.df i).1 (S.child 0 (M - 1) p.df i).2)) := rfl
+
+theorem kid_buildKids (f lo hi i : Nat) (hi' : i < p.df) :
+    kid (buildKids A S p sl f lo hi) i
+      = build A S p sl f (S.child lo hi p.df i).1 (S.child lo hi p.df i).2 := by
+  unfold kid buildKids
+  rw [List.getD_eq_getElem?_getD, List.getElem?_map, List.getElem?_range hi']
+  rfl
+
+end eqs
+
+/-! ### locality: a range that does not contain the changed hash keeps its subtree -/
+
+theorem build_out {D} (A : DigAlg D) (S : Splitter) (p : Params) (sl sl' : List Elem) (x : Nat)
     (hout : OnlyAt x sl sl') :
-    ∀ fuel lo hi, ¬ (lo ≤ x ∧ x ≤ hi) → WidthOk p sl' fuel lo hi →
-      build A p sl' fuel lo hi = build A p sl fuel lo hi := by
+    ∀ fuel lo hi, ¬ (lo ≤ x ∧ x ≤ hi) → WidthOk S p sl' fuel lo hi →
+      build A S p sl' fuel lo hi = build A S p sl fuel lo hi := by
   intro fuel
   induction fuel with
   | zero =>
     intro lo hi hx _
-    simp only [build, mkLeaf, hout lo hi hx]
+    rw [build_zero, build_zero, hout lo hi hx]
+    unfold mkLeaf
+    rw [hout lo hi hx]
   | succ f ih =>
     intro lo hi hx hw
-    simp only [build, mkLeaf, hout lo hi hx]
-    split
-    · rename_i hc
-      have hw' : SplitOk p.df lo hi ∧ ∀ i, i < p.df →
-          WidthOk p sl' f (childRange lo hi p.df i).1 (childRange lo hi p.df i).2 := by
+    rw [build_succ, build_succ, hout lo hi hx]
+    unfold mkLeaf
+    rw [hout lo hi hx]
+    by_cases hc : (slRange sl lo hi).length > p.thr
+    · have hw' : SplitOk S p.df lo hi ∧ ∀ i, i < p.df →
+          WidthOk S p sl' f (S.child lo hi p.df i).1 (S.child lo hi p.df i).2 := by
         rcases hw with hw | hw
         · rw [hout lo hi hx] at hw; omega
         · exact hw
-      have hl : (List.range p.df).map (fun i =>
-            build A p sl' f (childRange lo hi p.df i).1 (childRange lo hi p.df i).2)
-          = (List.range p.df).map (fun i =>
-            build A p sl f (childRange lo hi p.df i).1 (childRange lo hi p.df i).2) := by
+      have hl : buildKids A S p sl' f lo hi = buildKids A S p sl f lo hi := by
+        unfold buildKids
         apply List.map_congr_left
         intro i hi'
         have hi2 : i < p.df := by simpa using hi'
         have hs := hw'.1.sub i hi2
         apply ih _ _ _ (hw'.2 i hi2)
         intro hh; apply hx; omega
-      simp only [hl]
-    · rfl
+      rw [hl]
+    · rw [if_neg hc, if_neg hc]
 
+/-- replacing child `i` of the old children by the new subtree gives exactly the new children -/
+theorem set_buildKids {D} (A : DigAlg D) (S : Splitter) (p : Params) (sl sl' : List Elem) (x : Nat)
+    (hout : OnlyAt x sl sl') (f lo hi i : Nat)
+    (hw : ∀ j, j < p.df → WidthOk S p sl' f (S.child lo hi p.df j).1 (S.child lo hi p.df j).2)
+    (hothers : ∀ j, j < p.df → j ≠ i →
+      ¬ ((S.child lo hi p.df j).1 ≤ x ∧ x ≤ (S.child lo hi p.df j).2)) :
+    (buildKids A S p sl f lo hi).set i (build A S p sl' f (S.child lo hi p.df i).1 (S.child lo hi p.df i).2)
+      = buildKids A S p sl' f lo hi := by
+  apply List.ext_getElem?
+  intro j
+  unfold buildKids
+  rw [List.getElem?_set]
+  by_cases hj : j < p.df
+  · by_cases hji : i = j
+    · subst hji
+      simp [hj]
+    · simp only [hji, if_false, List.getElem?_map, List.getElem?_range hj, Option.map_some]
+      congr 1
+      exact (build_out A S p sl sl' x hout f _ _ (hothers j hj (fun h => hji h.symm)) (hw j hj)).symm
+  · have hn : (List.range p.df)[j]? = none := List.getElem?_eq_none (by simp; omega)
+    by_cases hji : i = j
+    · subst hji; simp [hj]
+    · simp [hji, hn]
+
+/-! ### the three refinement steps below the top range -/
+
+theorem addEl_build {D} (A : DigAlg D) (S : Splitter) (p : Params) (sl sl' : List Elem) (x : Nat)
+    (hout : OnlyAt x sl sl')
+    (hlen : ∀ a b, a ≤ x → x ≤ b → (slRange sl' a b).length = (slRange sl a b).length + 1) :
+    ∀ fuel lo hi, lo ≤ x → x ≤ hi → WidthOk S p sl' fuel lo hi →
+      addEl A S p sl' x fuel (build A S p sl fuel lo hi) lo hi = build A S p sl' fuel lo hi := by
+  intro fuel
+  induction fuel with
+  | zero =>
+    intro lo hi h1 h2 hw
+    have hl := hlen lo hi h1 h2
+    simp only [WidthOk] at hw
+    have hc : ¬ (slRange sl lo hi).length > p.thr := by omega
+    have hc' : ¬ (slRange sl' lo hi).length > p.thr := by omega
+    have h3 : ¬ (slRange sl lo hi).length + 1 > p.thr := by omega
+    rw [build_zero, build_zero, if_neg hc, if_neg hc']
+    unfold mkLeaf
+    rw [addEl_zero_leaf, if_neg h3]
+    rfl
+  | succ f ih =>
+    intro lo hi h1 h2 hw
+    have hl := hlen lo hi h1 h2
+    rw [build_succ, build_succ]
+    by_cases hc : (slRange sl lo hi).length > p.thr
+    · have hc' : (slRange sl' lo hi).length > p.thr := by omega
+      have hw' : SplitOk S p.df lo hi ∧ ∀ i, i < p.df →
+          WidthOk S p sl' f (S.child lo hi p.df i).1 (S.child lo hi p.df i).2 := by
+        rcases hw with hw | hw
+        · omega
+        · exact hw
+      obtain ⟨i, hb, hi', hin, hothers⟩ := hw'.1.bucket x h1 h2
+      rw [if_pos hc, if_pos hc', addEl_succ_div, hb]
+      simp only []
+      rw [kid_buildKids A S p sl f lo hi i hi', ih _ _ hin.1 hin.2 (hw'.2 i hi'),
+        set_buildKids A S p sl sl' x hout f lo hi i hw'.2 hothers, hl]
+    · rw [if_neg hc]
+      by_cases hc' : (slRange sl' lo hi).length > p.thr
+      · have h3 : (slRange sl lo hi).length + 1 > p.thr := by omega
+        rw [if_pos hc']
+        unfold mkLeaf
+        rw [addEl_succ_leaf, if_pos h3, hl]
+      · have h3 : ¬ (slRange sl lo hi).length + 1 > p.thr := by omega
+        rw [if_neg hc']
+        unfold mkLeaf
+        rw [addEl_succ_leaf, if_neg h3]
+        rfl
+
+theorem updEl_build {D} (A : DigAlg D) (S : Splitter) (p : Params) (sl sl' : List Elem) (x : Nat)
+    (hout : OnlyAt x sl sl')
+    (hlen : ∀ a b, (slRange sl' a b).length = (slRange sl a b).length) :
+    ∀ fuel lo hi, lo ≤ x → x ≤ hi → WidthOk S p sl' fuel lo hi →
+      updEl A S p sl' x fuel (build A S p sl fuel lo hi) lo hi = build A S p sl' fuel lo hi := by
+  intro fuel
+  induction fuel with
+  | zero =>
+    intro lo hi h1 h2 hw
+    have hl := hlen lo hi
+    simp only [WidthOk] at hw
+    have hc : ¬ (slRange sl lo hi).length > p.thr := by omega
+    have hc' : ¬ (slRange sl' lo hi).length > p.thr := by omega
+    rw [build_zero, build_zero, if_neg hc, if_neg hc']
+    unfold mkLeaf
+    rw [updEl_zero_leaf]
+    rfl
+  | succ f ih =>
+    intro lo hi h1 h2 hw
+    have hl := hlen lo hi
+    rw [build_succ, build_succ]
+    by_cases hc : (slRange sl lo hi).length > p.thr
+    · have hc' : (slRange sl' lo hi).length > p.thr := by omega
+      have hw' : SplitOk S p.df lo hi ∧ ∀ i, i < p.df →
+          WidthOk S p sl' f (S.child lo hi p.df i).1 (S.child lo hi p.df i).2 := by
+        rcases hw with hw | hw
+        · omega
+        · exact hw
+      obtain ⟨i, hb, hi', hin, hothers⟩ := hw'.1.bucket x h1 h2
+      rw [if_pos hc, if_pos hc', updEl_succ_div, hb]
+      simp only []
+      rw [kid_buildKids A S p sl f lo hi i hi', ih _ _ hin.1 hin.2 (hw'.2 i hi'),
+        set_buildKids A S p sl sl' x hout f lo hi i hw'.2 hothers, hl]
+    · have hc' : ¬ (slRange sl' lo hi).length > p.thr := by omega
+      rw [if_neg hc, if_neg hc']
+      unfold mkLeaf
+      rw [updEl_succ_leaf]
+      rfl
+
+/-- a sub-range holds at most as many elements as a range containing it -/
+theorem slRange_len_mono (sl : List Elem) (a b lo hi : Nat) (h1 : lo ≤ a) (h2 : b ≤ hi) :
+    (slRange sl a b).length ≤ (slRange sl lo hi).length := by
+  simp only [slRange_eq]
+  induction sl with
+  | nil => simp
+  | cons e es ih =>
+    simp only [List.filter_cons]
+    by_cases hin : inR a b e = true
+    · have : inR lo hi e = true := by
+        have := inR_true.mp hin
+        exact inR_true.mpr ⟨by omega, by omega⟩
+      simp [hin, this, ih]
+    · have hf : inR a b e = false := by
+        cases h : inR a b e
+        · rfl
+        · exact absurd h hin
+      rw [hf]
+      simp only [Bool.false_eq_true, if_false]
+      split
+      · simp only [List.length_cons]; omega
+      · exact ih
+
+/-- removal: the result is the canonical subtree of the new contents, and the merge loop is still
+active exactly when that subtree is an undivided range. `WidthOk` is needed for the OLD contents. -/
+theorem rmEl_build {D} (A : DigAlg D) (S : Splitter) (p : Params) (sl sl' : List Elem) (x : Nat)
+    (hout : OnlyAt x sl sl')
+    (hlen : ∀ a b, a ≤ x → x ≤ b → (slRange sl' a b).length + 1 = (slRange sl a b).length)
+    (hle : ∀ a b, (slRange sl' a b).length ≤ (slRange sl a b).length) :
+    ∀ fuel lo hi, lo ≤ x → x ≤ hi → WidthOk S p sl fuel lo hi →
+      rmEl A S p sl' x fuel (build A S p sl fuel lo hi) lo hi
+        = (build A S p sl' fuel lo hi, decide ((slRange sl' lo hi).length ≤ p.thr)) := by
+  intro fuel
+  induction fuel with
+  | zero =>
+    intro lo hi h1 h2 hw
+    have hl := hlen lo hi h1 h2
+    simp only [WidthOk] at hw
+    have hc : ¬ (slRange sl lo hi).length > p.thr := by omega
+    have hc' : ¬ (slRange sl' lo hi).length > p.thr := by omega
+    have hd : (slRange sl' lo hi).length ≤ p.thr := by omega
+    rw [build_zero, build_zero, if_neg hc, if_neg hc']
+    unfold mkLeaf
+    rw [rmEl_zero_leaf]
+    simp [mkLeaf, hd]
+  | succ f ih =>
+    intro lo hi h1 h2 hw
+    have hl := hlen lo hi h1 h2
+    rw [build_succ, build_succ]
+    by_cases hc : (slRange sl lo hi).length > p.thr
+    · have hw' : SplitOk S p.df lo hi ∧ ∀ i, i < p.df →
+          WidthOk S p sl f (S.child lo hi p.df i).1 (S.child lo hi p.df i).2 := by
+        rcases hw with hw | hw
+        · omega
+        · exact hw
+      obtain ⟨i, hb, hi', hin, hothers⟩ := hw'.1.bucket x h1 h2
+      rw [if_pos hc, rmEl_succ_div, hb]
+      simp only []
+      rw [kid_buildKids A S p sl f lo hi i hi', ih _ _ hin.1 hin.2 (hw'.2 i hi')]
+      by_cases hc' : (slRange sl' lo hi).length > p.thr
+      · -- still divided: no merge
+        have hcond : (decide ((slRange sl' (S.child lo hi p.df i).1 (S.child lo hi p.df i).2).length ≤ p.thr)
+            && decide ((slRange sl lo hi).length - 1 ≤ p.thr)) = false := by
+          have : ¬ ((slRange sl lo hi).length - 1 ≤ p.thr) := by omega
+          simp [this]
+        rw [hcond, if_pos hc']
+        simp only [Bool.false_eq_true, if_false]
+        have hws : ∀ j, j < p.df →
+            WidthOk S p sl' f (S.child lo hi p.df j).1 (S.child lo hi p.df j).2 := by
+          intro j hj
+          exact widthOk_mono S p sl sl' hle f _ _ (hw'.2 j hj)
+        rw [set_buildKids A S p sl sl' x hout f lo hi i hws hothers]
+        have hd : ¬ ((slRange sl' lo hi).length ≤ p.thr) := by omega
+        have hcnt : (slRange sl lo hi).length - 1 = (slRange sl' lo hi).length := by omega
+        simp [hd, hcnt]
+      · -- dropped to the threshold: merged
+        have hsub := hw'.1.sub i hi'
+        have hm := slRange_len_mono sl' _ _ lo hi hsub.1 hsub.2
+        have hcond : (decide ((slRange sl' (S.child lo hi p.df i).1 (S.child lo hi p.df i).2).length ≤ p.thr)
+            && decide ((slRange sl lo hi).length - 1 ≤ p.thr)) = true := by
+          have h1' : (slRange sl' (S.child lo hi p.df i).1 (S.child lo hi p.df i).2).length ≤ p.thr := by omega
+          have h2' : (slRange sl lo hi).length - 1 ≤ p.thr := by omega
+          simp [h1', h2']
+        rw [hcond, if_neg hc']
+        have hd : (slRange sl' lo hi).length ≤ p.thr := by omega
+        simp [hd]
+    · have hc' : ¬ (slRange sl' lo hi).length > p.thr := by omega
+      have hd : (slRange sl' lo hi).length ≤ p.thr := by omega
+      rw [if_neg hc, if_neg hc']
+      unfold mkLeaf
+      rw [rmEl_succ_leaf]
+      simp [mkLeaf, hd]
+
+/-! ### skip-list facts used by the history induction -/
+
+theorem slInsert_perm (e : Elem) (sl : List Elem) : (slInsert e sl).Perm (e :: sl) := by
+  induction sl with
+  | nil => exact List.Perm.refl _
+  | cons x xs ih =>
+    unfold slInsert
+    split
+    · exact List.Perm.refl _
+    · exact (List.Perm.cons x ih).trans (List.Perm.swap e x xs)
+
+theorem mem_slRemove {id : Nat} {sl : List Elem} {e : Elem} :
+    e ∈ slRemove id sl ↔ e ∈ sl ∧ e.id ≠ id := by
+  simp [slRemove, List.mem_filter]
+
+theorem slRemove_eq_self (id : Nat) (l : List Elem) (h : ∀ e, e ∈ l → e.id ≠ id) :
+    slRemove id l = l := by
+  unfold slRemove
+  apply List.filter_eq_self.mpr
+  intro e he
+  simp [h e he]
+
+theorem slRange_slRemove (id : Nat) (sl : List Elem) (a b : Nat) :
+    slRange (slRemove id sl) a b = slRemove id (slRange sl a b) := by
+  unfold slRange slRemove
+  rw [List.filter_filter, List.filter_filter]
+  congr 1
+  funext e
+  exact Bool.and_comm _ _
+
+theorem slRemove_len (l : List Elem) (e0 : Elem) (hn : (l.map (·.id)).Nodup) (hm : e0 ∈ l) :
+    (slRemove e0.id l).length + 1 = l.length := by
+  induction l with
+  | nil => cases hm
+  | cons x xs ih =>
+    simp only [List.map_cons, List.nodup_cons] at hn
+    by_cases hx : x.id = e0.id
+    · -- x is the element removed; nothing else has this id
+      have hrest : slRemove e0.id xs = xs := by
+        apply slRemove_eq_self
+        intro e he heq
+        apply hn.1
+        rw [hx, ← heq]
+        exact List.mem_map_of_mem he
+      have e1 : slRemove e0.id (x :: xs) = slRemove e0.id xs := by
+        simp [slRemove, List.filter_cons, hx]
+      rw [e1, hrest]; rfl
+    · have hm' : e0 ∈ xs := by
+        rcases List.mem_cons.mp hm with h | h
+        · exact absurd (by rw [h]) hx
+        · exact h
+      have := ih hn.2 hm'
+      have e1 : slRemove e0.id (x :: xs) = x :: slRemove e0.id xs := by
+        simp [slRemove, List.filter_cons, hx]
+      rw [e1]
+      simp only [List.length_cons]
+      omega
+
+theorem slRange_sub (sl : List Elem) (a b : Nat) : (slRange sl a b).Sublist sl := by
+  unfold slRange; exact List.filter_sublist
+
+theorem slRemove_sub (id : Nat) (sl : List Elem) : (slRemove id sl).Sublist sl := by
+  unfold slRemove; exact List.filter_sublist
+
+theorem mem_slRange {sl : List Elem} {a b : Nat} {e : Elem} :
+    e ∈ slRange sl a b ↔ e ∈ sl ∧ a ≤ e.hash ∧ e.hash ≤ b := by
+  simp [slRange, List.mem_filter]
+
+/-- removing the id whose hash is `x` changes the skip list only at `x` -/
+theorem remove_onlyAt (hf : Nat → Nat) (sl : List Elem) (id : Nat)
+    (hw : ∀ e, e ∈ sl → e.hash = hf e.id) : OnlyAt (hf id) sl (slRemove id sl) := by
+  intro a b hx
+  rw [slRange_slRemove]
+  apply slRemove_eq_self
+  intro e he heq
+  have hm := mem_slRange.mp he
+  have := hw e hm.1
+  rw [heq] at this
+  omega
+
+/-- … and takes exactly one element out of every range containing `x` -/
+theorem remove_count (hf : Nat → Nat) (sl : List Elem) (e0 : Elem) (hm : e0 ∈ sl)
+    (hw : ∀ e, e ∈ sl → e.hash = hf e.id) (hn : (sl.map (·.id)).Nodup)
+    (a b : Nat) (h1 : a ≤ hf e0.id) (h2 : hf e0.id ≤ b) :
+    (slRange (slRemove e0.id sl) a b).length + 1 = (slRange sl a b).length := by
+  rw [slRange_slRemove]
+  apply slRemove_len
+  · exact List.Nodup.sublist ((slRange_sub sl a b).map _) hn
+  · exact mem_slRange.mpr ⟨hm, by rw [hw e0 hm]; exact h1, by rw [hw e0 hm]; exact h2⟩
+
+theorem remove_le (id : Nat) (sl : List Elem) (a b : Nat) :
+    (slRange (slRemove id sl) a b).length ≤ (slRange sl a b).length := by
+  rw [slRange_slRemove]
+  unfold slRemove
+  exact List.length_filter_le _ _
+
+theorem slHas_iff {id : Nat} {sl : List Elem} : slHas id sl = true ↔ ∃ e, e ∈ sl ∧ e.id = id := by
+  simp [slHas, List.any_eq_true]
+
+/-! ### the skip list is sorted, and a sorted list is determined by its elements -/
+
+def Sorted (l : List Elem) : Prop := l.Pairwise (fun x y => x.lt y = true)
+
+theorem lt_trans' {a b c : Elem} (h1 : a.lt b = true) (h2 : b.lt c = true) : a.lt c = true := by
+  simp only [Elem.lt, Bool.or_eq_true, decide_eq_true_eq, Bool.and_eq_true, beq_iff_eq] at *
+  omega
+
+theorem lt_asymm' {a b : Elem} (h1 : a.lt b = true) (h2 : b.lt a = true) : False := by
+  simp only [Elem.lt, Bool.or_eq_true, decide_eq_true_eq, Bool.and_eq_true, beq_iff_eq] at *
+  omega
+
+theorem lt_total' {a b : Elem} (hne : a.id ≠ b.id) (h : ¬ a.lt b = true) : b.lt a = true := by
+  simp only [Elem.lt, Bool.or_eq_true, decide_eq_true_eq, Bool.and_eq_true, beq_iff_eq] at *
+  omega
+
+theorem slInsert_sorted (e : Elem) : ∀ (l : List Elem), Sorted l → (∀ x, x ∈ l → x.id ≠ e.id) →
+    Sorted (slInsert e l) := by
+  intro l
+  induction l with
+  | nil => intro _ _; simp [slInsert, Sorted]
+  | cons x xs ih =>
+    intro hs hne
+    have hs' := List.pairwise_cons.mp hs
+    unfold slInsert
+    split
+    · rename_i hlt
+      refine List.pairwise_cons.mpr ⟨?_, hs⟩
+      intro y hy
+      rcases List.mem_cons.mp hy with rfl | hy'
+      · exact hlt
+      · exact lt_trans' hlt (hs'.1 y hy')
+    · rename_i hlt
+      refine List.pairwise_cons.mpr ⟨?_, ih hs'.2 (fun y hy => hne y (by simp [hy]))⟩
+      intro y hy
+      rcases List.mem_cons.mp ((slInsert_perm e xs).mem_iff.mp hy) with rfl | hy'
+      · exact lt_total' (fun h => hne x (by simp) h.symm) hlt
+      · exact hs'.1 y hy'
+
+theorem slRemove_sorted (id : Nat) (l : List Elem) (h : Sorted l) : Sorted (slRemove id l) :=
+  List.Pairwise.sublist (slRemove_sub id l) h
+
+theorem nodup_of_map_id (l : List Elem) (h : (l.map (·.id)).Nodup) : l.Nodup := by
+  induction l with
+  | nil => exact List.nodup_nil
+  | cons x xs ih =>
+    simp only [List.map_cons, List.nodup_cons] at h ⊢
+    exact ⟨fun hm => h.1 (List.mem_map_of_mem hm), ih h.2⟩
+
+/-- a sorted skip list is determined by the set of its elements -/
+theorem sorted_ext (l₁ l₂ : List Elem) (s₁ : Sorted l₁) (s₂ : Sorted l₂)
+    (n₁ : l₁.Nodup) (n₂ : l₂.Nodup) (h : ∀ e, e ∈ l₁ ↔ e ∈ l₂) : l₁ = l₂ :=
+  List.Perm.eq_of_pairwise (fun _ _ _ _ h1 h2 => (lt_asymm' h1 h2).elim) s₁ s₂
+    ((List.perm_ext_iff_of_nodup n₁ n₂).mpr h)
+
+/-! ### the walk through the top range -/
+
+/-- the width hypothesis for a whole index -/
+def TopOk (S : Splitter) (p : Params) (sl : List Elem) : Prop :=
+  SplitOk S p.df 0 (M - 1) ∧
+    ∀ i, i < p.df → WidthOk S p sl depthFuel (S.child 0 (M - 1) p.df i).1 (S.child 0 (M - 1) p.df i).2
+
+theorem top_step {D} (A : DigAlg D) (S : Splitter) (p : Params) (sl sl' : List Elem) (x : Nat)
+    (dc : Nat → Nat) (f : Tree D → Nat → Nat → Tree D)
+    (hout : OnlyAt x sl sl') (hx : x < M) (hok : TopOk S p sl') (hcount : dc sl.length = sl'.length)
+    (hf : ∀ i, i < p.df →
+      (S.child 0 (M - 1) p.df i).1 ≤ x → x ≤ (S.child 0 (M - 1) p.df i).2 →
+      f (build A S p sl depthFuel (S.child 0 (M - 1) p.df i).1 (S.child 0 (M - 1) p.df i).2)
+          (S.child 0 (M - 1) p.df i).1 (S.child 0 (M - 1) p.df i).2
+        = build A S p sl' depthFuel (S.child 0 (M - 1) p.df i).1 (S.child 0 (M - 1) p.df i).2) :
+    topOp A S p x dc f (buildTop A S p sl) = buildTop A S p sl' := by
+  obtain ⟨i, hb, hi', hin, hothers⟩ := hok.1.bucket x (Nat.zero_le _) (by omega)
+  unfold buildTop
+  rw [topOp_div, hb]
+  simp only []
+  rw [kid_buildKids A S p sl depthFuel 0 (M - 1) i hi', hf i hi' hin.1 hin.2,
+    set_buildKids A S p sl sl' x hout depthFuel 0 (M - 1) i hok.2 hothers, hcount]
 
 end AnySync.Ldiff
